@@ -9,7 +9,7 @@
 From Coq Require Import List NArith Bool.
 From FS Require Import Sx Model.Path Model.Stat Model.Tree Model.FollowLinks Model.Pattern Model.FilterWalk
      Model.FollowTransfer Proofs.PatternP Proofs.FollowLinksP Proofs.FollowLinksClosedP Proofs.FollowLinksWildP
-     Proofs.FollowTransferP.
+     Proofs.FollowTransferP Proofs.FollowTransferStarP.
 Import ListNotations.
 Open Scope N_scope.
 
@@ -78,7 +78,7 @@ Proof. exact FollowLinksWildP.result_closed_selfmatch_proof. Qed.
 
 (* ---- the consequence clause, as a composition with C10's model of filterFS.Walk:
         NewFilterFS(view, {FollowPaths: reqs}) computes FollowLinks, appends the result to the
-        include patterns (follow_cfg: dedupePaths + patternmatcher.New) and walks with them
+        include patterns (follow_cfg: patternmatcher.New on the appended targets) and walks with them
         (filter_walk, no map function).  That walk reports every symlink the independent
         resolver traverses for every request and the entry it reaches - so each request
         resolves in the copy as in the source.
@@ -103,6 +103,38 @@ Theorem transfer_resolves_same_partial :
         forall r o x, In r reqs -> In o (chroot_resolve_all gmatch view r) -> needed o x ->
           In (joinc x) (map st_path (filter_walk pmatch id_map c view)).
 Proof. exact FollowTransferP.transfer_resolves_same_partial_proof. Qed.
+
+(* ---- the same for requests whose LAST component is a bare star (d/star): FollowLinks then
+        keeps the pattern d/star in its result, the one non-literal pattern shape to which C10's
+        prefix_semantics gives a meaning (L/star matches L/ followed by one component, for
+        regex-safe L).  star_inputs: every component of a link target and every component of a
+        (cleaned) request is plain and regex-safe (ASCII, none of the braces and bar), except
+        that the last component of a request may be a bare star.  The result must not contain the
+        bare pattern "star" itself (a request star at the root, or below a link to the root): that
+        shape is a general glob for the library.  Other wildcards (l-star, ?, classes) would need
+        a hypothesis tying Pattern.match's regexp translation to filepath.Match: not covered. ---- *)
+Theorem transfer_resolves_same_star_partial :
+  forall pmatch gmatch view reqs,
+    prefix_semantics pmatch ->
+    FollowLinks.wf_view view = true ->
+    star_inputs view reqs = true ->
+    forall (fuel : nat) (follow : option (list bytes)),
+      follow_links_opt gmatch view fuel reqs = Ok follow ->
+      no_revisit gmatch view fuel reqs = true ->
+      lexical_safe view reqs = true ->
+      (forall res, follow = Some res -> ~ In s_star res) ->
+      exists c, follow_cfg follow = Some c /\
+        forall r o x, In r reqs -> In o (chroot_resolve_all gmatch view r) -> needed o x ->
+          In (joinc x) (map st_path (filter_walk pmatch id_map c view)).
+Proof. exact FollowTransferStarP.transfer_resolves_same_star_proof. Qed.
+
+(* ---- what FollowLinks returns is a fixed point of dedupePaths: running dedupePaths once more
+        over a FollowPaths-only include list (as NewFilterFS did before the fix of finding
+        dedupe-order-sensitive-includes) changes nothing, so follow_cfg describes both versions ---- *)
+Theorem follow_targets_dedupe_fixpoint :
+  forall gmatch view fuel reqs l,
+    follow_links_opt gmatch view fuel reqs = Ok (Some l) -> dedupe_paths l = Some l.
+Proof. exact FollowTransferP.follow_targets_dedupe_fixpoint_proof. Qed.
 
 Definition dirmode : N := 2147484141.   (* ModeDir | 0755 *)
 Definition lnkmode : N := 134218239.    (* ModeSymlink | 0777 *)
@@ -243,13 +275,42 @@ Example transfer_instances :
   plain_inputs [F [33;120]] [[33;120]] = false.
 Proof. vm_compute. repeat split; reflexivity. Qed.
 
+(* a star request: dir/star on the chain tree keeps the pattern dir/star and adds dir/foo (target
+   of dir/l1); the walk with these includes reports dir and everything directly below it *)
+Example transfer_star_instances :
+  star_inputs v_chain [[100;105;114;47;42]] = true /\
+  plain_inputs v_chain [[100;105;114;47;42]] = false /\
+  follow_links_opt go_match v_chain (fuel_bound v_chain [[100;105;114;47;42]]) [[100;105;114;47;42]] =
+    Ok (Some [[100;105;114;47;42]; [100;105;114;47;102;111;111]]) /\
+  walked v_chain [[100;105;114;47;42]] =
+    Some [[100;105;114]; [100;105;114;47;102;111;111]; [100;105;114;47;108;49]] /\
+  star_inputs v_chain [[108;50]; [98;97;114]] = true.
+Proof. vm_compute. repeat split; reflexivity. Qed.
+
 Print Assumptions follow_terminates.
 Print Assumptions result_sorted_minimal.
 Print Assumptions result_covers_resolved.
 Print Assumptions result_closed.
 Print Assumptions result_closed_selfmatch.
 Print Assumptions transfer_resolves_same_partial.
+Print Assumptions follow_targets_dedupe_fixpoint.
+Print Assumptions transfer_resolves_same_star_partial.
 Print Assumptions result_closed_refuted.
 Print Assumptions result_closed_lexical_refuted.
 Print Assumptions result_closed_wildcard_refuted.
 Print Assumptions result_closed_linkglob_refuted.
+
+(* ---- source equivalences (tools/go2coq; gen/SrcFns.v is regenerated from /repo on every run): the
+        Gallina definitions translated from followlinks.go's containsWildcards (Linux: runtime.GOOS =
+        "linux") and dedupePaths (nested range loops with `continue loop`) equal the models; the
+        model's None is the nil slice Go returns on ".", which the translation renders as the empty list ---- *)
+From FSGen Require SrcFns.
+From FS Require Proofs.Src.ContainsWildcardsEq Proofs.Src.DedupePathsEq.
+Theorem containsWildcards_src_eq :
+  forall s, SrcFns.containsWildcards s = Some (contains_wildcards s).
+Proof. exact ContainsWildcardsEq.containsWildcards_src_eq. Qed.
+Theorem dedupePaths_src_eq :
+  forall l, SrcFns.dedupePaths l = Some (match dedupe_paths l with Some r => r | None => [] end).
+Proof. exact DedupePathsEq.dedupePaths_src_eq. Qed.
+Print Assumptions containsWildcards_src_eq.
+Print Assumptions dedupePaths_src_eq.
